@@ -2,6 +2,7 @@
 This module contains the implementation for the SNMPv3 message-processing model
 """
 
+from time import monotonic
 from typing import Any, Awaitable, Callable, Dict, Optional, Union
 
 from x690.types import Integer, OctetString
@@ -60,6 +61,9 @@ class V3MPM(MessageProcessingModel[V3EncodingResult, TV3SecModel]):
     message-processing-model.
     """
 
+    #: Local (monotonic) time at which the discovery data was received
+    disco_received_at: Optional[float] = None
+
     def decode(
         self,
         whole_msg: bytes,  # as received from the network
@@ -94,6 +98,7 @@ class V3MPM(MessageProcessingModel[V3EncodingResult, TV3SecModel]):
             self.disco = await self.security_model.send_discovery_message(
                 self.transport_handler
             )
+            self.disco_received_at = monotonic()
         security_engine_id = self.disco.authoritative_engine_id
 
         if engine_id == b"":
@@ -115,10 +120,17 @@ class V3MPM(MessageProcessingModel[V3EncodingResult, TV3SecModel]):
         )
 
         if self.disco is not None:
+            # The remote engine-time keeps advancing after discovery. As per
+            # RFC 3414 section 2.3 we keep a local notion of that time by
+            # adding the time elapsed since it was learned. Otherwise
+            # requests fall out of the 150s time-window of the remote engine.
+            elapsed = 0
+            if self.disco_received_at is not None:
+                elapsed = int(monotonic() - self.disco_received_at)
             self.security_model.set_engine_timing(
                 self.disco.authoritative_engine_id,
                 self.disco.authoritative_engine_boots,
-                self.disco.authoritative_engine_time,
+                self.disco.authoritative_engine_time + elapsed,
             )
 
         snmp_version = 3
